@@ -89,6 +89,35 @@ NOTES = {
     "C18-h": "first miss: backups stayed complete -> a recorded copy (or its directory) removed before a new manager is built",
     "C20-g": "first miss: every Duration group had its own content -> `dur-fixed` items: distinct processes whose listed text is identical",
     "C20-h": "first miss: unordered onsets were numeric only -> every onset triple with n/a whose numeric onsets decrease",
+    # fifth wave
+    "C01-i": "first miss: one validation per validator state was never compared with a fresh validator -> `validator_history_check`: the same value text under tags of different value classes, in both orders on one HedValidator and together in one annotation",
+    "C01-j": "first miss: prefix histories only used prefixed annotations -> under a prefix an unprefixed tag must be TAG_NAMESPACE_PREFIX_INVALID",
+    "C02-i": "first miss: no bounded alphabet spells `n/a` -> MAGIC_TEXTS (missing-value words as the whole annotation, padded, in groups)",
+    "C02-j": "first miss: enumeration reaches depth 3-5 -> nesting depths 8 ... 200 (around 100 densely)",
+    "C03-i": "first miss: forms of a valued tag equal those of its parent node -> the node must be the `#` child and value-taking; generated node `Zq-level` with its own extensionAllowed and a `#` child",
+    "C05-i": "first miss: no description with `&` / `#` -> description mentioning the entity `&#8203;`",
+    "C05-j": "first miss: no description with a backslash -> `C:\\new_data`, `\\nu`, `\\t`, trailing backslash",
+    "C06-i": "first miss: the sidecar of a table object never changed -> `mapper_reset_check`: every sequence (depth 3) of sidecar replacements through `reset_column_mapper`",
+    "C06-j": "first miss: every template named all referenced columns, targets were of mixed kinds -> `cat2ref-split` (each entry names one of two references) with two value columns as targets",
+    "C07-i": "first miss: onset cells were numbers or n/a -> F6b: `abc`, `1,5`, `--`, `1_000` in the onset column",
+    "C07-j": "first miss: rows without a time only in files otherwise in time order -> every file order of the F6 / F6b rows",
+    "C08-i": "first miss: `value-column-no-placeholder` used `Red` -> also the empty string, a blank, `n/a`",
+    "C08-j": "first miss: referenced columns had lower-case names -> `Phase`, `trial_Phase2`, `PHASE` referenced from `(Def/Dd, {Phase})` with entries `Onset` / `Offset`",
+    "C09-i": "first miss: duplicate names were ASCII -> `Straße`, `Maß` / `MASS`, `ﬁx` / `FIX`, Greek final sigma",
+    "C10-i": "first miss: delays only in `s` / `ms` and never across a time point -> `delay-crossing(-prefix)`: a group written before the previous time point, delay in `Ms` (factor read from the XML)",
+    "C10-j": "first miss: failing rows only in files in time order -> `unsorted_files`: every file order of rows with a failing marker row, and a row without a time at every position",
+    "C11-j": "first miss: no literal ending in a bare decimal point -> `3.`, `12.e1` (thorough `-12.`, `3.e2`)",
+    "C12-i": "first miss: spreadsheet cells were never blank-only -> cells ` ` / two blanks before `(Red, Red)` / `Label/a$b`",
+    "C13-i": "first miss: every configuration had an unprefixed member or was a group -> single schemas loaded as `sc:<version>`: unprefixed tags are errors",
+    "C13-j": "first miss: schemas always came from the complete cache -> two libraries under one prefix from a folder that holds only the first file",
+    "C14-j": "first miss: `defaultUnits` seeded with a made-up unit -> a real unit of another unit class",
+    "C15-i": "first miss: changed annotations only through expand / shrink / copy -> `replace-defs` (what `HedTagManager.get_hed_objs(replace_defs=True)` does) and queries across the replaced part",
+    "C15-j": "first miss: the grammar nests binary operators with parentheses -> `chain_check`: unparenthesised chains of 3 and 4 operands",
+    "C16-i": "first miss: events files at most two directories deep -> `sub-01/ses-1/eeg/` with sidecars in the session directory",
+    "C17-i": "first miss: where the reference refuses, any library behaviour was accepted -> `MustRaise`: `remap_columns` with `ignore_missing` false and an unlisted source value must fail (also when only row 0 has it)",
+    "C18-i": "first miss: one backup name per history -> `named_backups_check`: two names, edits and restores in every order through one manager object and through fresh ones",
+    "C18-j": "first miss: no path component began with a dot -> `.sourcedata/...`, `.pilot_events.tsv` next to `pilot_events.tsv`",
+    "C20-j": "first miss: one value per value-taking definition -> `Def/B/x` and `Def/B/y` Onset / Offset items",
     "C19-h": "first miss: at most two refresh attempts per directory -> every history of <= 4 gaps from {1 s, T-1, T, 2T} against a one-number model",
 }
 
